@@ -148,6 +148,10 @@ def _param_hashes():
     return [("blake2b(digest_size=32)", functools.partial(hashlib.blake2b, digest_size=32)),
             ("blake2b(digest_size=48)", functools.partial(hashlib.blake2b, digest_size=48)),
             ("blake2s(digest_size=16)", functools.partial(hashlib.blake2s, digest_size=16)),
+            ("blake2b(digest_size=33)", functools.partial(hashlib.blake2b, digest_size=33)),
+            ("blake2s(digest_size=30)", functools.partial(hashlib.blake2s, digest_size=30)),
+            ("blake2b(digest_size=17)", functools.partial(hashlib.blake2b, digest_size=17)),
+            ("blake2b(digest_size=63)", functools.partial(hashlib.blake2b, digest_size=63)),
             ("blake2b(key=...)", functools.partial(hashlib.blake2b, key=b"k" * 16)),
             ("blake2b(person=...)", functools.partial(hashlib.blake2b, person=b"py_ecc")),
             ("new('sha256')", functools.partial(hashlib.new, "sha256")),
@@ -421,6 +425,10 @@ def run(ctx):
     for hn in ("sha256", "sha512"):
         for lm in ([1 << 20, (1 << 22) - 1, 1 << 22, (1 << 22) + 1, 1 << 23] + ([] if q else [1 << 24, 3 << 22])):
             tasks.append(("xmd", {"h": hn, "lms": [lm], "lds": [5], "ns": [32]}))
+    # ... and at every whole number of MiB / of 10^6 bytes up to 10 (buffer sizes people pick), with neighbours
+    mib = [k << 20 for k in (2, 3, 5, 6, 7, 9, 10)] + [k * 10 ** 6 for k in (1, 2, 5)] + [(6 << 20) - 1, (6 << 20) + 1, 3 << 19]
+    for lm in mib if q else mib + [k << 20 for k in (11, 12, 15, 16, 20)]:
+        tasks.append(("xmd", {"h": "sha256", "lms": [lm], "lds": [5], "ns": [32]}))
     # counts at each hash's own 255-block limit (L = 64 bytes per coordinate)
     for m in (1, 2):
         for hn in ("sha256", "sha512", "sha384", "sha1", "sha3_512"):
